@@ -11,9 +11,13 @@ from . import native
 class PhLeaf:
     """the symbolic placeholder as a 'leaf' (for model blocking and rendering)"""
 
-    def __init__(self, ev, name='ph'):
+    def __init__(self, ev, name='ph', variant=None):
         self.ev = ev; self.name = name
         self.val, self.constraint = placeholder_value(ev, name)
+        if ev == 'number' and variant is not None:
+            # a Number placeholder of a fixed variant (bit-vector integer / double)
+            if variant == 'Integer': v = z3.BitVec(name + '_i', 64); self.val = adt(sem.NUM, 'Integer', [v]); self.constraint = True
+            else: v = z3.FP(name + '_f', F64); self.val = adt(sem.NUM, 'Float', [v]); self.constraint = True
         self.var = self.val if not isinstance(self.val, tuple) else (('cplx', self.val[1], self.val[2]) if self.val[0] == 'cplx' else z3.Int('unused_' + name))
 
     def value(self): return self.val
